@@ -13,8 +13,8 @@ static std::string slug(std::string s) { for (auto &c : s) if (!isalnum((unsigne
 
 // evaluates one case, updates statistics; returns the label of the first violating evaluator ("" if none)
 static std::string judge(const Spec &s, const NumCase &c, const std::string &sub, bool record) {
-  auto out = run_case(s, c, g_K, g_prop);
-  Stats &st = stats(); std::string bad;
+  long mc0 = mirror_compared(); auto out = run_case(s, c, g_K, g_prop);
+  Stats &st = stats(); std::string bad; if (record && mirror_compared() > mc0) st.count("c_interface_mirror_comparisons", mirror_compared() - mc0);
   for (auto &o : out) {
     if (record) { st.count("evaluations"); st.count("evals:" + s.name);
       if (o.status == 3) st.count("skipped_near_switching_surface");
